@@ -82,7 +82,10 @@ func genC11M(t *rapid.T) c11mScenario {
 			sc.Ops = append(sc.Ops, c11mOp{Kind: "expire", Sil: rapid.IntRange(0, created-1).Draw(t, "sil")})
 		case k < 7:
 			op := c11mOp{Kind: "log", Key: rapid.IntRange(0, 2).Draw(t, "key"), Firing: rapid.IntRange(0, 3).Draw(t, "firing")}
-			if rapid.IntRange(0, 5).Draw(t, "bad") == 0 {
+			if rapid.IntRange(0, 3).Draw(t, "merge") == 0 {
+				// the entry arrives from a cluster peer (gossip) instead of being logged locally
+				op.Kind = "log-merge"
+			} else if rapid.IntRange(0, 5).Draw(t, "bad") == 0 {
 				// receiver data that cannot be encoded (a string that is not valid UTF-8): Log must fail
 				// without leaving anything behind
 				op.Kind = "log-unencodable"
@@ -106,6 +109,7 @@ func execC11M(sc c11mScenario) (res pbt.Result) {
 	changedAfterSnapshot := false
 	sizeLimited := false
 	farEnd := false
+	mergedOnly := false
 	synctest.Test(pbt.T(), func(*testing.T) {
 		compat.InitFromFlags(nopLog, featurecontrol.NoopFlags{})
 		ctx := context.Background()
@@ -121,6 +125,14 @@ func execC11M(sc c11mScenario) (res pbt.Result) {
 			res.Fail("harness", "%v", err)
 			return
 		}
+		// a cluster peer that authors log entries; its broadcasts are what gossip would deliver
+		peer, err := nflog.New(nflog.Options{Retention: ret, Logger: nopLog, Metrics: prometheus.NewRegistry()})
+		if err != nil {
+			res.Fail("harness", "%v", err)
+			return
+		}
+		var peerWire [][]byte
+		peer.SetBroadcast(func(b []byte) { peerWire = append(peerWire, append([]byte(nil), b...)) })
 		stopc := make(chan struct{})
 		done := make(chan struct{}, 2)
 		iv := time.Duration(sc.Interval) * time.Second
@@ -205,6 +217,19 @@ func execC11M(sc c11mScenario) (res pbt.Result) {
 				if err == nil {
 					lastChange = now
 				}
+			case "log-merge":
+				var firing []uint64
+				for j := 0; j < op.Firing; j++ {
+					firing = append(firing, uint64(100*i+j))
+				}
+				peerWire = peerWire[:0]
+				if err := peer.Log(&nflogpb.Receiver{GroupName: "r", Integration: "webhook", Idx: uint32(op.Key)}, fmt.Sprintf("{}:{g=\"%d\"}", op.Key), firing, nil, nil, time.Hour); err != nil || len(peerWire) == 0 {
+					res.Fail("harness", "peer Log: %v", err)
+				} else if err := nfl.Merge(peerWire[len(peerWire)-1]); err != nil {
+					res.Fail("harness", "Merge: %v", err)
+				}
+				lastChange = now
+				mergedOnly = true
 			case "log":
 				var firing []uint64
 				for j := 0; j < op.Firing; j++ {
@@ -312,6 +337,9 @@ func execC11M(sc c11mScenario) (res pbt.Result) {
 	if farEnd {
 		res.Class("silence-ending-9999-12-31")
 	}
+	if mergedOnly {
+		res.Class("log-entry-received-from-a-peer")
+	}
 	return res
 }
 
@@ -389,6 +417,28 @@ func TestC12Restart(t *testing.T) {
 			for _, v := range res.Violations {
 				switch v.Kind {
 				case "silence-lost", "silence-stale", "silence-resurrected", "start-refused", "harness":
+					kept = append(kept, v)
+				}
+			}
+			res.Violations = kept
+			return res
+		},
+	})
+}
+
+// C10Restart: the histories of C11Maintenance judged for C10 across a restart through the real maintenance loops:
+// every unexpired entry, whether logged locally or received from a peer, is held again after the restart.
+func TestC10Restart(t *testing.T) {
+	pbt.Run(t, pbt.Spec[c11mScenario]{
+		Property: "C10", Name: "C10Restart",
+		Rule: "the scenarios of C11Maintenance (local Log calls, entries merged from a peer's gossip, an unencodable Log, advances under the real Maintenance loops, then a clean shutdown or a kill after a quiet interval, then a start from the snapshot file). Judged here: the unexpired records of the notification log are the same before and after the restart (kinds nflog-differs, start-refused, failed-log-changed-state). Non-trivial: the log changed after a periodic snapshot had been written.",
+		Gen:  genC11M,
+		Exec: func(sc c11mScenario) pbt.Result {
+			res := execC11M(sc)
+			kept := res.Violations[:0]
+			for _, v := range res.Violations {
+				switch v.Kind {
+				case "nflog-differs", "start-refused", "failed-log-changed-state", "harness":
 					kept = append(kept, v)
 				}
 			}
